@@ -44,7 +44,7 @@ def clock_caps(prog):
     return caps
 
 
-def default_canon(rr, k, caps):
+def default_canon(rr, k, caps, canon_paths=None):
     """Canonical form of the state at the end of tick k of a real run: framer statuses, active
     outline, done/main, capped clocks (only those the framer reads), watched shares with stamps as ages."""
     snap = rr.ticks[k]
@@ -62,7 +62,8 @@ def default_canon(rr, k, caps):
     # time (share.stamp > mark.stamp, ==, used != stamp), so they are canonicalised to their rank
     # (0 = now, 1 = most recent earlier stamp, ...).
     stamps = {now}
-    for p, (fields, stamp) in snap["shares"].items():
+    shares = {p: v for p, v in snap["shares"].items() if canon_paths is None or p in canon_paths}
+    for p, (fields, stamp) in shares.items():
         if stamp is not None:
             stamps.add(stamp)
     for p, marks in (snap.get("marks") or {}).items():
@@ -73,7 +74,7 @@ def default_canon(rr, k, caps):
                 stamps.add(used)
     rank = {v: i for i, v in enumerate(sorted(stamps, reverse=True))}
     sh = []
-    for p, (fields, stamp) in sorted(snap["shares"].items()):
+    for p, (fields, stamp) in sorted(shares.items()):
         sh.append((p, fields, None if stamp is None else rank[stamp]))
     mk = []
     for p, marks in sorted((snap.get("marks") or {}).items()):
@@ -83,7 +84,8 @@ def default_canon(rr, k, caps):
     return (tuple(fr), tuple(sh), tuple(mk))
 
 
-def explore(prog, alphabet, depth, on_run, watch=(), back_alphabet=None, canon=None, max_states=None):
+def explore(prog, alphabet, depth, on_run, watch=(), back_alphabet=None, canon=None, max_states=None, canon_paths=None):
+    """canon_paths: watched shares that are READ by the program (others are write-only outputs: compared by on_run but not part of the state)."""
     caps = clock_caps(prog)
     backs = back_alphabet or [None]
     seen = set()
@@ -115,7 +117,7 @@ def explore(prog, alphabet, depth, on_run, watch=(), back_alphabet=None, canon=N
                     maxd = max(maxd, len(h2))
                     if stop or rr.outcome != "returned" or len(rr.ticks) < len(h2):
                         continue   # violation recorded by on_run or run ended early: do not expand
-                    key = (canon or default_canon)(rr, len(h2) - 1, caps)
+                    key = canon(rr, len(h2) - 1, caps) if canon else default_canon(rr, len(h2) - 1, caps, canon_paths)
                     if key in seen:
                         continue
                     seen.add(key)
